@@ -300,6 +300,16 @@ def run_one(spec: dict) -> dict:
                                  "message": f"statement {si} `{script[int(si)]}`: {a_} -> {b_} expected (the table was created earlier in the script and defines that column); "
                                             f"the statement reported {sorted(have)} (script {script}, config {spec.get('cfg')})"})
 
+    # ---- the generator knows the whole answer for this shape (independent of the library's per-statement paths)
+    if spec.get("expect_paths") is not None:
+        want_paths = {tuple(p) for p in spec["expect_paths"]}
+        probe("self_rewrite_paths_checked")
+        if any(len(p) == 2 and p[1].rsplit(".", 1)[0] in {a["target"] for a in annot} for p in want_paths):
+            probe("self_rewritten_column_ends_at_intermediate")
+        if observed != want_paths:
+            return done({"class": "paths_differ_from_expected", "message": f"script {script} (provider {ps}, {spec['dialect']}): a table rewritten from itself keeps its lineage; expected paths "
+                         f"missing from the result: {sorted(want_paths - observed)[:4]}; reported but not expected: {sorted(observed - want_paths)[:4]}"})
+
     # ---- oracle (3): SELECT * from a table created earlier expands to exactly the registered columns
     model = {}
     for i, a in enumerate(annot):
@@ -353,6 +363,13 @@ def run_one(spec: dict) -> dict:
                 flex.add((s, t))
                 for n in every:
                     flex.add((f"{n}.{raw}", t))
+    # a statement that rewrites a column from itself (t.c -> t.c) composes to nothing new when the column has another
+    # producer; when it has none the graph is cyclic there and the script is skipped below like every cyclic one
+    loops = {e for e in exact if e[0] == e[1]}
+    if loops:
+        produced = {t for s_, t in exact if s_ != t}
+        exact -= {e for e in loops if e[0] in produced}
+        probe("self_loop_in_statement_pairs")
     obs_edges = set()
     for p in observed:
         for a_, b_ in zip(p, p[1:]):
@@ -487,6 +504,47 @@ def gen_reorder(g, seed, ps, dialect) -> dict:
     return spec
 
 
+def gen_selfrewrite(g, seed, ps, dialect) -> dict:
+    """A table the script created is rewritten FROM ITSELF by a later statement (de-duplication / filtering in place:
+    directly, through a derived table, through a CTE, or through an explicit column list) and, maybe, read by a third.
+    The rewrite composes to nothing new: every column still ends where it did - at the final target when a later
+    statement consumes it, at the intermediate table when none does.  The generator knows the exact path set."""
+    tag = f"k{seed % 1000}"
+    b = g.choice(sorted(BASE_META))
+    T, W = g.sample(UNIVERSE, 2)
+    n = g.choice([2, 3, 3, 4])
+    cols = [f"c_{tag}_s{i}" for i in range(n)]
+    xs = [g.choice(BASE_META[b]) for _ in range(n)]
+    s1 = f"CREATE TABLE {T} AS SELECT " + ", ".join(f"{x} AS {c}" for x, c in zip(xs, cols)) + f" FROM {b}"
+    form = g.choice(["sub", "sub", "cte", "direct"] + (["cols"] if dialect == "ansi" else []))
+    where = g.choice(["", f" WHERE {cols[0]} > 0", f" WHERE {cols[-1]} IS NOT NULL"])
+    lst = ", ".join(cols)
+    if form == "sub":
+        s2 = f"INSERT INTO {T} SELECT {lst} FROM (SELECT {lst} FROM {T}{where}) latest_{tag}"
+    elif form == "cte":
+        s2 = f"WITH latest_{tag} AS (SELECT {lst} FROM {T}{where}) INSERT INTO {T} SELECT {lst} FROM latest_{tag}"
+    elif form == "direct":
+        s2 = f"INSERT INTO {T} SELECT {lst} FROM {T}{where}"
+    else:
+        sub = cols[:g.choice(range(1, n + 1))]
+        s2 = f"INSERT INTO {T} ({', '.join(sub)}) SELECT {', '.join(sub)} FROM (SELECT {', '.join(sub)} FROM {T}) latest_{tag}"
+    consumed = [c for c in cols if g.random() < 0.5]
+    ann = lambda kind, t, out, srcs_: {"kind": kind, "target": t, "out": out, "srcs": srcs_, "star": False, "wild": False}
+    script, annot = [s1, s2], [ann("ctas", T, list(cols), [b]), ann("insert_cols" if form == "cols" else "insert", T, None, [T])]
+    if consumed:
+        s3 = f"INSERT INTO {W} SELECT {', '.join(consumed)} FROM {T}"
+        a3 = ann("insert", W, list(consumed), [T])
+        if g.random() < 0.3:
+            script.insert(1, s3)
+            annot.insert(1, a3)
+        else:
+            script.append(s3)
+            annot.append(a3)
+    paths = sorted({(f"{b}.{x}", f"{T}.{c}") + ((f"{W}.{c}",) if c in consumed else ()) for x, c in zip(xs, cols)})
+    return {"seed": seed, "script": script, "annot": annot, "provider": ps, "dialect": dialect, "shape": "selfrewrite",
+            "trailing_semicolon": g.random() < 0.5, "expect_paths": [list(p) for p in paths]}
+
+
 def gen(seed) -> dict:
     g = stream(seed, "gen")
     r = g.random()
@@ -502,6 +560,8 @@ def gen(seed) -> dict:
         return gen_recreate(g, seed, ps, base, dialect)
     if ps is not None and ps["meta"] and dialect == "ansi" and g.random() < 0.12:
         return gen_reorder(g, seed, ps, dialect)
+    if g.random() < 0.06:
+        return gen_selfrewrite(g, seed, ps, dialect)
     sg = ScriptGen(g, f"k{seed % 1000}", known=base, allow_drop_rename=False, allow_cte=g.random() < 0.5)
     sg.strict_subquery_cols = True
     sg.shadow_targets = sorted(base)
@@ -553,7 +613,7 @@ def plan(seed: int, tier: str) -> list[dict]:
 def shrink_candidates(spec):
     out = []
     n = len(spec["script"])
-    if n > 1:
+    if n > 1 and spec.get("expect_paths") is None:  # (an expected path set describes the whole script)
         for i in range(n):
             tgt = spec["annot"][i].get("target")
             if tgt and any(tgt in later for later in spec["script"][i + 1:]):
